@@ -24,6 +24,7 @@ func checkC09(c *Check) {
 	checkC09ByName(c, L)
 	checkC09Siblings(c, L)
 	checkC09Overloads(c, L)
+	checkTrieNodeIndices(c, c.Rule("R9.9", "the trie search gives its key generator a different index for every visited node (the generator keeps one saved position per index)", 1))
 	checkC09OperatorNodes(c, L)
 }
 
